@@ -4,6 +4,7 @@ Exposes `PART` (loaded by props/c06.py). The other part (EOF, Finished, Metadata
 """
 import random
 import struct
+import zlib
 from typing import Any, Dict, Iterator, List, Optional
 
 import core
@@ -165,9 +166,13 @@ def unpack_tolerant(cls, raw: bytes, refuses: bool = False):
     return core.cfdp_tolerant(cls.unpack, raw, refuses=refuses)
 
 
-def detached(cls, raw: bytes, fields, p, refuses: bool = False):
+def detached(cls, raw: bytes, fields, p, refuses: bool = False, sample: bool = False):
     """the receiver decodes out of its receive buffer (a bytearray) and then reuses that buffer: the decoded PDU keeps
-    the values that were on the wire (core.decode_detached; the view is what the PDU re-packs to and its lengths)"""
+    the values that were on the wire (core.decode_detached; the view is what the PDU re-packs to and its lengths).
+    sample: one decoded PDU in four, chosen by the octets themselves (run time; used for the kinds of this part, whose
+    parameters are integers; the kinds of part 'var', which keep octet strings, are always looked at)"""
+    if sample and zlib.crc32(raw) & 3:
+        return
     view = _digest(fields)
     core.check_detached(lambda b: core.cfdp_tolerant(cls.unpack, b, refuses=refuses), raw, view, cls.__name__ + ".unpack",
                         expect=view(p), memview=core.accepts_memoryview(cls.unpack))
@@ -179,7 +184,7 @@ def _decoded(p, fields, raw: bytes, cls=None, refuses: bool = False):
     if f["packet_len"] > len(raw):
         raise SelfCheckFailure("decoded PDU is longer than the buffer it was decoded from")
     if cls is not None:
-        detached(cls, raw, fields, p, refuses)
+        detached(cls, raw, fields, p, refuses, sample=True)
     f["raw"] = _repack(p)
     return f
 
@@ -244,8 +249,9 @@ def op_fdir_unpack(a):
     _isolated(fd, _fd_fields, f)
     if f["dir_header_len"] > len(raw):
         raise SelfCheckFailure("decoded directive header is longer than the buffer")
-    core.check_detached(FileDirectivePduBase.unpack, raw, _digest(_fd_fields), "FileDirectivePduBase.unpack",
-                        expect=_digest(_fd_fields)(fd), memview=core.accepts_memoryview(FileDirectivePduBase.unpack))
+    if zlib.crc32(raw) & 3 == 0:
+        core.check_detached(FileDirectivePduBase.unpack, raw, _digest(_fd_fields), "FileDirectivePduBase.unpack",
+                            expect=_digest(_fd_fields)(fd), memview=core.accepts_memoryview(FileDirectivePduBase.unpack))
     f["raw"] = _repack(fd)
     return f
 
